@@ -37,12 +37,33 @@ type RunCtx struct {
 	Sample  map[string]any
 	// Calls tracks application/API calls issued as named tasks; all must have returned after settle.
 	Calls []*Call
+	// Callbacks tracks invocations of library code by the simulated environment (message handlers, graphsync
+	// hooks): each must return.
+	Callbacks []*Callback
 	// HarnessErr is set when the harness itself misbehaved (never reported as a violation).
 	HarnessErr string
 	// NoStuckCheck disables the generic "every call returned" oracle (scenarios that end early).
 	NoStuckCheck bool
 	// PanicPropOverride, when set, maps every library panic of this run to the given property
 	PanicPropOverride string
+}
+
+type Callback struct {
+	Name string
+	Node string
+	Task *simrt.Task
+	Step int
+	Done bool
+	// Dead: the process it ran in crashed meanwhile
+	Dead func() bool
+}
+
+// Callback runs f (an entry into library code made by the simulated environment) and records whether it returned.
+func (r *RunCtx) Callback(node, name string, f func()) {
+	cb := &Callback{Name: name, Node: node, Task: r.S.CurrentTask(), Step: r.S.Steps}
+	r.Callbacks = append(r.Callbacks, cb)
+	f()
+	cb.Done = true
 }
 
 type Call struct {
@@ -249,6 +270,18 @@ func rootFrame(stack string) string {
 	return f
 }
 
+// libChain returns the innermost n go-data-transfer frames of a stack, innermost first.
+func libChain(stack string, n int) string {
+	lines := strings.Split(stack, "\n")
+	var out []string
+	for i := 1; i < len(lines)-1 && len(out) < n; i += 2 {
+		if strings.Contains(lines[i], "go-data-transfer/v2") {
+			out = append(out, trimFrame(lines[i]))
+		}
+	}
+	return strings.Join(out, "<-")
+}
+
 func firstLibFrameOf(stack string) string {
 	// for a blocked goroutine's stack: the innermost frame in go-data-transfer itself (falling back to the
 	// innermost frame in one of its small dependencies), plus the outermost go-data-transfer frame when it differs
@@ -415,6 +448,43 @@ func ExecRun(t *testing.T, prop string, st Stratum, stIdx int, tape *simrt.Tape,
 				}
 				r.Fail("C20", "call-never-returned", "stuck-at:"+rootFrame(stk)+"("+c.Task.BlockOn()+")",
 					fmt.Sprintf("call %s on %s (task %s) had not returned at quiescence after settle; blocked on %s at %s\n%s", c.Name, c.Node, c.Task.ID, c.Task.BlockOn(), frame, shortStack(stk)))
+			}
+		}
+	}
+	if !r.NoStuckCheck && !res.StepsOut && len(s.Panics) == 0 && res.HarnessErr == "" {
+		var stuckT []*simrt.Task
+		for _, cb := range r.Callbacks {
+			if !cb.Done && (cb.Dead == nil || !cb.Dead()) {
+				stuckT = append(stuckT, cb.Task)
+			}
+		}
+		if len(stuckT) > 0 {
+			stacks := s.StacksOf(stuckT)
+			for _, cb := range r.Callbacks {
+				if cb.Done || (cb.Dead != nil && cb.Dead()) {
+					continue
+				}
+				stk := stacks[cb.Task.ID]
+				where := "stuck-at:" + rootFrame(stk) + "(" + cb.Task.BlockOn() + ")"
+				for _, h := range simrt.HoldersOf(cb.Task) {
+					if h == cb.Task {
+						// the callback waits for a lock that it holds itself: name the frame that re-locks and the ones that
+						// led there
+						where = "relocks-own-lock:" + libChain(stk, 3)
+					}
+				}
+				if strings.Contains(stk, "SendSync") {
+					// the callback waits for a channel's state machine; is a blocked task waiting for a lock this callback holds?
+					for _, bt := range s.BlockedTasks() {
+						for _, h := range simrt.HoldersOf(bt) {
+							if h == cb.Task {
+								where = "holds-lock-needed-by-the-state-machine-stage-it-waits-for:" + rootFrame(stk)
+							}
+						}
+					}
+				}
+				r.Fail("C20", "callback-never-returned", callClass(cb.Name)+"|"+where,
+					fmt.Sprintf("%s delivered to node %s at step %d never returned (task %s blocked on %s)\n%s", cb.Name, cb.Node, cb.Step, cb.Task.ID, cb.Task.BlockOn(), shortStack(stk)))
 			}
 		}
 	}
